@@ -228,6 +228,17 @@ func fmtArg(fr *frame, verb byte, a value) value {
 		case sBool:
 			return &sym{s: sStr, e: "(ite " + x.e + " \"true\" \"false\")"}
 		case sBV:
+			if pc := fr.i.pc; pc.opaqueItoa {
+				// decimal rendering as an uninterpreted function of the value (harness opted in:
+				// its assertions do not depend on the digits)
+				fn := fmt.Sprintf("itoa_%d", x.w)
+				if !pc.ufDecl[fn] {
+					pc.ufDecl[fn] = true
+					pc.sol.send(fmt.Sprintf("(declare-fun %s ((_ BitVec %d)) String)\n", fn, x.w))
+				}
+				pc.note("decimal rendering of a symbolic integer modelled as an uninterpreted function (vfOpaqueItoa)")
+				return &sym{s: sStr, e: "(" + fn + " " + x.e + ")"}
+			}
 			_, signed := bvInfo(itf.t)
 			if signed {
 				n := "(bv2nat " + x.e + ")"
@@ -666,6 +677,10 @@ func inReadAll(fr *frame, args []value) value {
 	if !ok || r.t == nil {
 		panic(runtimePanic{"runtime error: invalid memory address or nil pointer dereference (ReadAll of nil reader)"})
 	}
+	if r.t.String() == "*bytes.Reader" {
+		p := derefPtr(r.v, "ReadAll(*bytes.Reader)")
+		return tuple{(*p).(structure)[0], iface{}}
+	}
 	ms := fr.i.prog.MethodSets.MethodSet(r.t)
 	for k := 0; k < ms.Len(); k++ {
 		if ms.At(k).Obj().Name() == "VfReadAll" {
@@ -1030,8 +1045,18 @@ func inMutexUnlock(fr *frame, args []value) value {
 	return nil
 }
 
-func inWGAdd(fr *frame, args []value) value  { return nil }
-func inWGDone(fr *frame, args []value) value { return nil }
+func inWGAdd(fr *frame, args []value) value {
+	if fr.i.sched != nil {
+		return schedWGAdd(fr, args)
+	}
+	return nil
+}
+func inWGDone(fr *frame, args []value) value {
+	if fr.i.sched != nil {
+		return schedWGAdd(fr, []value{args[0], int(-1)})
+	}
+	return nil
+}
 func inWGWait(fr *frame, args []value) value {
 	if fr.i.sched != nil {
 		return schedWGWait(fr, args)
@@ -1039,8 +1064,72 @@ func inWGWait(fr *frame, args []value) value {
 	return nil
 }
 
-func schedMutexLock(fr *frame, args []value) value   { panic(engineErr("scheduler not built")) }
-func schedMutexUnlock(fr *frame, args []value) value { panic(engineErr("scheduler not built")) }
-func schedWGWait(fr *frame, args []value) value      { panic(engineErr("scheduler not built")) }
 
 var _ = fmt.Sprintf
+
+// ---------------------------------------------------------------------
+// net/http client-side request construction (pub/transport.go)
+
+func init() {
+	intrinsics["net/http.NewRequest"] = inHTTPNewRequest
+	intrinsics["(*net/http.Request).WithContext"] = inHTTPWithContext
+	intrinsics["(*net/http.Request).Context"] = inHTTPContext
+	intrinsics["bytes.NewReader"] = inBytesNewReader
+}
+
+func (i *interpreter) httpRequestStruct() *types.Struct {
+	return i.ld.namedType("net/http", "Request").Underlying().(*types.Struct)
+}
+
+// http.NewRequest(method, url string, body io.Reader) (*http.Request, error): method and URL as
+// documented (invalid URL -> error); Header is a fresh empty map; Body is the reader given.
+func inHTTPNewRequest(fr *frame, args []value) value {
+	i := fr.i
+	st := i.httpRequestStruct()
+	pu := inURLParse(fr, []value{args[1]}).(tuple)
+	if e, ok := pu[1].(iface); ok && e.t != nil {
+		return tuple{(*value)(nil), pu[1]}
+	}
+	r := zero(st).(structure)
+	r[i.fieldIndex(st, "Method")] = args[0]
+	r[i.fieldIndex(st, "URL")] = pu[0]
+	r[i.fieldIndex(st, "Proto")] = "HTTP/1.1"
+	hk := i.fieldIndex(st, "Header")
+	r[hk] = newAmap(st.Field(hk).Type().Underlying().(*types.Map))
+	if b, ok := args[2].(iface); ok && b.t != nil {
+		r[i.fieldIndex(st, "Body")] = b
+	}
+	u := (*pu[0].(*value)).(structure)
+	r[i.fieldIndex(st, "Host")] = u[i.fieldIndex(i.urlStruct(), "Host")]
+	cell := value(r)
+	return tuple{&cell, iface{}}
+}
+
+// (*http.Request).WithContext: shallow copy carrying the context.
+func inHTTPWithContext(fr *frame, args []value) value {
+	p := derefPtr(args[0], "(*http.Request).WithContext")
+	if c, ok := args[1].(iface); !ok || c.t == nil {
+		panic(targetPanic{iface{t: types.Typ[types.String], v: "nil context"}})
+	}
+	st := fr.i.httpRequestStruct()
+	r := append(structure(nil), (*p).(structure)...)
+	r[fr.i.fieldIndex(st, "ctx")] = args[1]
+	cell := value(r)
+	return &cell
+}
+
+func inHTTPContext(fr *frame, args []value) value {
+	p := derefPtr(args[0], "(*http.Request).Context")
+	st := fr.i.httpRequestStruct()
+	c := (*p).(structure)[fr.i.fieldIndex(st, "ctx")]
+	if ci, ok := c.(iface); ok && ci.t != nil {
+		return c
+	}
+	return inCtxBackground(fr, nil)
+}
+
+// bytes.NewReader(b): a reader over the byte handle b.
+func inBytesNewReader(fr *frame, args []value) value {
+	cell := value(structure{args[0]})
+	return &cell
+}
